@@ -268,6 +268,35 @@ def generate(repo):
     out += [f"Definition gen_sload_rule : load_rule := "
             f"{load_rule(find_function(ftree, 'Sampler.load_full_df'), 'df', ('not os.path.isfile(self.data_name)', 'not os.path.exists(self.data_name)'))}.", ""]
 
+    # Sampler: how a run draws its cases (a FRESH merge of the default choices and the override, n draws per
+    # argument from the allowed choices or the supplied generator) and hands them on
+    want = {
+        "Sampler.gen_cases_fnargs": [
+            "combos = {} if combos is None else dict(combos)",
+            "combos = {**self.default_combos, **combos}",
+            "cases = tuple((tuple((v() if callable(v) else np.random.choice(v) for v in combos.values())) for _ in range(n)))",
+            "return (tuple(combos.keys()), cases)"],
+        "Sampler.sample_combos": [
+            "(fn_args, cases) = self.gen_cases_fnargs(n, combos)",
+            "last_df = self.runner.run_cases(cases, fn_args=fn_args, to_df=True, **case_runner_settings)",
+            "self._last_df = last_df",
+            "self.add_df(last_df, engine=engine)",
+            "return last_df"],
+    }
+    for q, lines in want.items():
+        got = [ast.unparse(x) for x in body_of(find_function(ftree, q))]
+        got = [g.replace("fn_args, cases = ", "(fn_args, cases) = ") for g in got]
+        if got != lines:
+            k = next((i for i, (a, b) in enumerate(zip(got, lines)) if a != b), min(len(got), len(lines)))
+            raise Refused(find_function(ftree, q), f"{q} differs from the transcription at statement {k}")
+    ctree = ast.parse(open(f"{repo}/xyzpy/gen/cropping.py").read())
+    got = [ast.unparse(x) for x in body_of(find_function(ctree, "Crop.sow_samples"))]
+    got = [g.replace("fn_args, cases = ", "(fn_args, cases) = ") for g in got]
+    if got != ["(fn_args, cases) = self.farmer.gen_cases_fnargs(n, combos)",
+               "self.sow_cases(fn_args, cases, constants=constants, verbosity=verbosity)"]:
+        raise Refused(find_function(ctree, "Crop.sow_samples"), "sow_samples differs from the transcription")
+    out += ["Definition gen_sampler_draw_is_transcribed : bool := true.", ""]
+
     # manage.save_merge_ds
     fn = find_function(mtree, "save_merge_ds")
     b = body_of(fn)
